@@ -133,6 +133,66 @@ Proof.
   apply (group_one_undo c07_rows h s e evs Hc Ha Hp Hall Hwf Hne).
 Qed.
 
+(* Every binding of the real table falls in one of the three categories the
+   key-level model has an event for: a plain handler behind a binding that
+   snapshots (generic [Key], arbitrary effect), an undo handler ([UndoKey]), or
+   the cursor-position-report binding (delivered as [Cpr]).  In particular the
+   ONLY binding that never snapshots and is not an undo key is the CPR one. *)
+Lemma live_classification_rows :
+  forallb (fun r => ((r_act r =? 0) && negb (r_cls r =? 0))
+                    || ((r_act r =? 1) && (r_cls r =? 0))
+                    || ((r_role r =? 7) && (r_act r =? 0) && (r_cls r =? 0))) c07_rows = true.
+Proof. vm_compute. reflexivity. Qed.
+
+Theorem live_classification h :
+  (r_act (lookup c07_rows h) = 0 /\ r_cls (lookup c07_rows h) <> 0) \/
+  (r_act (lookup c07_rows h) = 1 /\ r_cls (lookup c07_rows h) = 0) \/
+  r_role (lookup c07_rows h) = 7.
+Proof.
+  pose proof (forallb_lookup _ c07_rows h live_classification_rows eq_refl) as H. cbn beta in H.
+  apply orb_true_iff in H. destruct H as [H|H]; [apply orb_true_iff in H; destruct H as [H|H]|].
+  - left. apply andb_true_iff in H. destruct H as [H1 H2]. apply Z.eqb_eq in H1.
+    split; [exact H1|]. intros E. rewrite E in H2. discriminate.
+  - right. left. apply andb_true_iff in H. destruct H as [H1 H2].
+    apply Z.eqb_eq in H1. apply Z.eqb_eq in H2. split; assumption.
+  - right. right. apply andb_true_iff in H. destruct H as [H _].
+    apply andb_true_iff in H. destruct H as [H _]. apply Z.eqb_eq in H. exact H.
+Qed.
+
+(* Repeated undo reaches the initial text after EVERY session over the real
+   table whose generic key events are dispatches of plain snapshotting
+   bindings (whatever they do), whose undo keys behave as the handler model
+   says and whose terminal reports are delivered as process_keys delivers
+   them - no assumption about texts left alone. *)
+Theorem live_reaches_start t0 c0 evs k :
+  0 <= c0 <= len t0 -> Forall kev_ok evs -> Forall (modelled c07_rows) evs ->
+  let s := kbuf (krun c07_rows (kfresh t0 c0) evs) in
+  (length (ustack s) <= k)%nat ->
+  utext (iter_op Undo k s) = t0.
+Proof. apply key_reaches_start_modelled. exact live_sane. Qed.
+
+(* kill-line (c-k), kill-word (escape d), yank (c-y): plain handlers behind
+   bindings that snapshot before every invocation *)
+Lemma live_kill_yank_rows :
+  forallb (fun r => negb ((r_role r =? 8) || (r_role r =? 9) || (r_role r =? 10))
+                    || ((r_cls r =? 1) && (r_act r =? 0))) c07_rows = true.
+Proof. vm_compute. reflexivity. Qed.
+
+Theorem live_kill_yank h :
+  r_role (lookup c07_rows h) = 8 \/ r_role (lookup c07_rows h) = 9 \/ r_role (lookup c07_rows h) = 10 ->
+  r_cls (lookup c07_rows h) = 1 /\ r_act (lookup c07_rows h) = 0.
+Proof.
+  intros Hr. pose proof (forallb_lookup _ c07_rows h live_kill_yank_rows eq_refl) as H. cbn beta in H.
+  assert (E : (r_role (lookup c07_rows h) =? 8) || (r_role (lookup c07_rows h) =? 9) || (r_role (lookup c07_rows h) =? 10) = true).
+  { destruct Hr as [Hr|[Hr|Hr]]; rewrite Hr; reflexivity. }
+  rewrite E in H. cbn [negb orb] in H. apply andb_true_iff in H.
+  destruct H as [H1 H2]. apply Z.eqb_eq in H1. apply Z.eqb_eq in H2. split; assumption.
+Qed.
+
+Lemma live_roles_present_2 :
+  has_role c07_rows 7 = true /\ has_role c07_rows 8 = true /\ has_role c07_rows 9 = true /\ has_role c07_rows 10 = true.
+Proof. vm_compute. repeat split. Qed.
+
 (* ---- the rows as they stood at the pinned commit ---- *)
 
 (* Typing "xy" after "abc" and pressing the (emacs) undo key once: the text
